@@ -255,9 +255,21 @@ func WaitOrStuck(done <-chan struct{}, pair *Pair) string {
 			last, same = "", 0
 		}
 		if time.Since(start) > InconclusiveCap {
-			panic(Inconclusive{fmt.Sprintf("case exceeded %v without terminating or becoming quiescent", InconclusiveCap)})
+			panic(Inconclusive{fmt.Sprintf("case exceeded %v without terminating or becoming quiescent\n%s", InconclusiveCap, relevantDump())})
 		}
 	}
+}
+
+// relevantDump renders the goroutines the quiescence rule looks at (for the
+// log of an inconclusive case).
+func relevantDump() string {
+	var sb strings.Builder
+	for _, g := range dumpGoroutines() {
+		if relevant(g) {
+			sb.WriteString("goroutine " + g.id + " [" + g.state + "]:\n" + g.body + "\n\n")
+		}
+	}
+	return sb.String()
 }
 
 // deliverable reports whether the harness itself still owes the run an
